@@ -65,7 +65,9 @@ CLAIMED = {
         technique="loop invariant on the real retry wrapper; ghost in-flight set and failure-lock invariant for max_errors; worker_pool / coordinator contracts for max_workers; run composition for the plumbing",
         text="Proved: retry (all attempts >= 1, exception classes, outcomes); exactly worker_count threads run process_items and fn is only called after an unset stop flag was read; "
              "error_count + in-flight <= max_errors + worker_count once stop is set (G5 with cardinality lemmas); stale check sized by stale_check_max_workers defaulting to max_workers; both phases get the same coerced retry.",
-        note="'that many do run in parallel' and the exact count with one worker are liveness / completion statements: not decided. 'at most worker_count tokens are held' is the worker_pool contract plus T14.",
+        note="'that many do run in parallel' is a liveness statement: not decided. The counts are lemmas over the engine invariants at quiescence (contracts/completion.py, z3): at most k + max_workers calls fail; with one worker exactly k + 1 once stop was set; "
+             "when stop was never set (max_errors=None or budget not exceeded) every call all of whose dependencies succeeded was executed - so the number of failures is the number of failing calls none of whose dependencies failed. "
+             "'at most worker_count tokens are held' is the worker_pool contract plus T14.",
     ),
     "C11": dict(
         technique="contract verification: real staged_write_path/staged_write/_try_remove and each store's write executed on a ghost file system; complete enumeration of ok/raise/partial/die at every file operation",
